@@ -96,6 +96,14 @@ CASES = [
     ("lambda e: (e.x, G_NZERO)", "ok"), ("lambda e: (e.x, G_ZERO)", "ok"),
     ("lambda e: (G_ZERO_F, G_NZERO, G_FALSE, G_ZERO, G_TRUE, G_ONE_F, G_ONE, e.x)", "ok"),
     ("lambda e: e.jets.Select(lambda v1: (v1.pt * G_ONE, G_TRUE, G_ONE_F))", "ok"),
+    # every kind of parameter of a nested lambda is a binder, also when a global has its name
+    # (repaired defect: only plain positional parameters were treated as bound)
+    ("lambda e: e.jets.Select(lambda *q: q[0].pt + G_INT)", "ok"),
+    ("lambda e: e.jets.Select(lambda v1, *j: v1.pt + len(j) + G_INT)", "ok"),
+    ("lambda e: e.jets.Select(lambda v1, *, j=2: v1.pt + j)", "ok"),
+    ("lambda e: e.jets.Select(lambda v1, **q: v1.pt + G_INT + (0 if q else 1))", "ok"),
+    ("lambda e: e.jets.Select(lambda q, /: q.pt + G_INT)", "ok"),
+    ("lambda e: e.jets.Select(lambda v1, /, j=3: v1.pt + j + G_INT)", "ok"),
     # non transportable
     ("lambda e: e.x in G_LIST", "refuse"), ("lambda e: (e.x, G_OBJ)", "refuse"),
     ("lambda e: G_DICT", "refuse"), ("lambda e: (e.x, G_TUP)", "refuse"),
@@ -138,6 +146,19 @@ def _factory(i, v, s):
     inner()
     v = 1000
     w = -1
+def _factory_shadow(i):
+    # variables of the enclosing function that have the names of module globals: the lambda sees
+    # the enclosing function's (repaired defect: the module's value was emitted)
+    G_INT = 1000
+    j = 2000
+    G_STR = "local"
+    try:
+        R.append((i, 'ok', ds.Select(lambda e: (e.x + G_INT + j, e.name + G_STR, e.x + G_NEG))))
+    except Exception as _ex:
+        R.append((i, 'err', _ex))
+    _native(i, (lambda e: (e.x + G_INT + j, e.name + G_STR, e.x + G_NEG)))
+    G_INT = -1
+    j = -2
 def _loop_scan(i0, cuts):
     # the SAME lambda (one code object) passed once per loop iteration with another captured value
     for n, cut in enumerate(cuts):
@@ -292,6 +313,7 @@ def run(t):
         parts.append(FACTORY % {"i": base + k, "v": v, "s": s})
     cuts = [-1, 1, 3]
     parts.append(f"_loop_scan({base + len(fvals)}, {cuts!r})\n")
+    parts.append(f"_factory_shadow({base + len(fvals) + len(cuts)})\n")
     parts.append(MUTATE)
     mod = srcgen.run_module("".join(parts), "c04")
     data = mod.DATA
@@ -301,8 +323,10 @@ def run(t):
             lam, kind = CASES[i]
         elif i < base + len(fvals):
             lam, kind = f"closure factory {fvals[i - base]}", "ok"
-        else:
+        elif i < base + len(fvals) + len(cuts):
             lam, kind = f"closure: same lambda in a loop, cut={cuts[i - base - len(fvals)]}", "ok"
+        else:
+            lam, kind = "closure: enclosing-function variables named like module globals", "ok"
         key = "C04:" + lam
         t.case(key, "lambda" in lam and any(g in lam for g in ("G_", "K.", "math", " j", " q", "closure")),
                sample=lam)
